@@ -8,6 +8,7 @@ import contextlib
 
 import sqlalchemy as sa
 from sqlalchemy import event
+from sqlalchemy.ext.hybrid import hybrid_property
 from sqlalchemy.orm import declarative_base, relationship, Session
 from sqlalchemy.pool import StaticPool
 
@@ -111,6 +112,19 @@ class Post(Base):
     comments = relationship("Comment", back_populates="post")
     tags = relationship("Tag", secondary=post_tags, back_populates="posts")
     labels = relationship("Tag", secondary=post_labels)
+
+    # fields the mapper knows as extension descriptors, not as columns
+    @hybrid_property
+    def double_rating(self):
+        return self.rating * 2
+
+    @hybrid_property
+    def title_lc(self):
+        return self.title.lower()
+
+    @title_lc.expression
+    def title_lc(cls):
+        return sa.func.lower(cls.title)
 
 
 class Comment(Base):
